@@ -63,6 +63,11 @@ def instances(tier, seed):
             out.append({"name": "rt-cat-K%d-p%02d" % (K, part), "fn": "roundtrip_cat", "timeout": T, "cost": 2,
                         "params": {"K": K, "part": part, "seed": seed,
                                    "limit": ({1: 200, 2: 100, 3: 60}[K] if tier == "quick" else {1: 200, 2: 2400, 3: 1500}[K])}})
+    # -- values reached through the public re-formatting paths AFTER their source was rendered (history: memoised strings exist)
+    for K in (1, 2):
+        for part in range(0, 14, 2 if tier == "quick" else 1):
+            out.append({"name": "rt-der-K%d-p%02d" % (K, part), "fn": "roundtrip_cat", "timeout": T, "cost": 2,
+                        "params": {"K": K, "part": part, "seed": seed, "derive": True, "limit": 80 if tier == "quick" else 1500}})
     # -- grammar, symbolic holes: one sequence with <= 1 parameter
     one1 = [()] + [(a,) for a in SUPPORTED]
     for chunk in range(0, len(one1), 6):
@@ -123,16 +128,43 @@ def _limit(cases):
     return cases[(P.get("seed", 0) % k)::k]
 
 
+DERIVS = [("add", {"bold": True}), ("add", {"fg": 32}), ("add", {"bg": 41, "underline": True}), ("remove", ("fg",)),
+          ("remove", ("bold", "bg")), ("fmtstr", {"fg": 34}), ("add", {})]
+DTEXTS = ["a", "a\nb", "[", "0m", ""]
+
+
 def _rt_cases():
     K = P["K"]
     out = []
     n = 0
+    if P.get("derive"):
+        for pats in itertools.product(range(len(REDUCED)), repeat=K):
+            if pats[0] != P["part"] and not (K == 1 and pats[0] == P["part"] + 1):
+                continue
+            for txt in itertools.product(range(len(DTEXTS)), repeat=K):
+                for d in range(len(DERIVS)):
+                    out.append((pats, txt, d))
+        return _limit(out)
     for pats in itertools.product(range(len(REDUCED)), repeat=K):
         if K >= 2 and pats[0] != P["part"]:
             continue
         for txt in itertools.product(range(len(TEXTS)), repeat=K):
             out.append((pats, txt))
     return _limit(out)
+
+
+def _derive(case):
+    """a FmtStr reached by re-formatting a value that was already rendered and measured"""
+    from curtsies.formatstring import FmtStr, Chunk, fmtstr
+    pats, txt, d = case
+    f0 = FmtStr(*[Chunk(DTEXTS[t], REDUCED[a]) for t, a in zip(txt, pats)])
+    H.warm(f0)
+    kind, arg = DERIVS[d]
+    if kind == "add":
+        return f0.copy_with_new_atts(**arg)
+    if kind == "remove":
+        return f0.new_with_atts_removed(*arg)
+    return fmtstr(f0, **arg)
 
 
 def setup(params):
@@ -226,8 +258,12 @@ def roundtrip_cat(s1: int, s2: int) -> bool:
     post: _
     """
     from curtsies.formatstring import FmtStr, Chunk
-    pats, txt = H.pick(CASES, s1, s2)
-    f = FmtStr(*[Chunk(TEXTS[t], REDUCED[a]) for t, a in zip(txt, pats)])
+    case = H.pick(CASES, s1, s2)
+    if P.get("derive"):
+        f = _derive(case)
+    else:
+        pats, txt = case
+        f = FmtStr(*[Chunk(TEXTS[t], REDUCED[a]) for t, a in zip(txt, pats)])
     g = FmtStr.from_str(str(f))
     return verdict(_cells_eq(_sym_cells(g), _sym_cells(f)), len(f.s) >= 2)
 
@@ -258,8 +294,12 @@ def concrete(fn, params, args):
     if fn in ("roundtrip", "roundtrip_cat"):
         K = params["K"]
         if fn == "roundtrip_cat":
-            pats, txt = H.pick_concrete(_rt_cases(), args[0], args[1])
-            f = FmtStr(*[Chunk(TEXTS[t], REDUCED[a]) for t, a in zip(txt, pats)])
+            case = H.pick_concrete(_rt_cases(), args[0], args[1])
+            if params.get("derive"):
+                f = _derive(case)
+            else:
+                pats, txt = case
+                f = FmtStr(*[Chunk(TEXTS[t], REDUCED[a]) for t, a in zip(txt, pats)])
         else:
             f = FmtStr(*[Chunk(t, REDUCED[a]) for t, a in zip(list(args)[:K], params["a"])])
         s = str(f)
